@@ -231,6 +231,30 @@ Definition readEp (p : position) (s : str) : fenError + position :=
   | [] => inr p
   end.
 
+(** the half-move clock and move number fields ([s] starts after the e.p. field) *)
+Definition fenCounters (p : position) (s : str) : position :=
+  let s := skipSpaces s in
+  let '(tok, s) := token s in
+  let p := match tok with
+           | [] => p
+           | _ => match stoi tok with Some v => setHalfMoveClock p v | None => p end
+           end in
+  let s := skipSpaces s in
+  let '(tok, s) := token s in
+  match tok with
+  | [] => p
+  | _ => match stoi tok with Some v => setFullMoveCounter p v | None => p end
+  end.
+
+(** the checks at the end of readFEN and the e.p. fix-up *)
+Definition fenFinish (p : position) : fenResult :=
+  if negb (Nat.eqb (countPiece p WKING) 1) then FenErr ErrWhiteKing
+  else if negb (Nat.eqb (countPiece p BKING) 1) then FenErr ErrBlackKing
+  else
+    let p2 := setWhiteMove zk p (negb (whiteMove p)) in
+    if inCheck p2 then FenErr ErrKingCapture
+    else FenOk (fixupEPSquare p).
+
 Definition readFEN (fen : str) : fenResult :=
   match readPlacement fen (emptyPosition zk) 7%Z 0%Z with
   | inl e => FenErr e
@@ -248,26 +272,7 @@ Definition readFEN (fen : str) : fenResult :=
         let s := skipSpaces s in
         match (match s with [] => inr p | _ => readEp p s end) with
         | inl e => FenErr e
-        | inr p =>
-          let s := snd (token s) in
-          let s := skipSpaces s in
-          let '(tok, s) := token s in
-          let p := match tok with
-                   | [] => p
-                   | _ => match stoi tok with Some v => setHalfMoveClock p v | None => p end
-                   end in
-          let s := skipSpaces s in
-          let '(tok, s) := token s in
-          let p := match tok with
-                   | [] => p
-                   | _ => match stoi tok with Some v => setFullMoveCounter p v | None => p end
-                   end in
-          if negb (Nat.eqb (countPiece p WKING) 1) then FenErr ErrWhiteKing
-          else if negb (Nat.eqb (countPiece p BKING) 1) then FenErr ErrBlackKing
-          else
-            let p2 := setWhiteMove zk p (negb (whiteMove p)) in
-            if inCheck p2 then FenErr ErrKingCapture
-            else FenOk (fixupEPSquare p)
+        | inr p => fenFinish (fenCounters p (snd (token s)))
         end
       end
     end
